@@ -144,13 +144,13 @@ PROPERTIES['C01'] = {
     'level': 'other',
     'configs': two,
     'rules': [R(point.noeff1), R(point.keyeq1), R(point.leaf1), R(point.leaf2), R(point.leaf3), R(point.root1), R(point.split1), R(point.pair1), R(point.copy1), R(point.desc1), R(find.find1), R(find.ord1), R(slot.slot1), R(prefix.pfx1), R(prefix.pfx2),
-              advisory(R(lambda cfg: iterrules.sib1_point(cfg, accounting=False))), R(lambda cfg: olcrules.lock6(cfg, kinds=('leaf',)))],
+              advisory(R(lambda cfg: iterrules.sib1_point(cfg, accounting=False))), R(lambda cfg: olcrules.lock6(cfg, kinds=('leaf',))), R(olcrules.lock6b)],
     'technique': 'static analysis: path-sensitive effect flow with callee summaries (result/effect correlation), control-dependence rules (full-key comparison guards), writer/reader expression agreement, abstract interpretation of the node search and key-prefix arithmetic in byte-vector / lane-wise three-valued domains with exhaustively enumerated lengths and counts, sibling differencing db vs olc_db',
     'explanation': 'The local generators of "point operations behave as a map", decided on the clang-instantiated code of all three index classes and both key kinds; the behaviour over all histories is NOT decided (see does_not_decide). '
                    'NOEFF-1 on every path insert / remove return false (or request a restart) only if nothing was stored into the tree and return true only if something was; get / empty never store. '
                    'KEYEQ-1 every "key present" decision (value returned by get, duplicate rejected by insert, leaf unlinked by remove and by the remove helpers of every node class) is control-dependent on a full comparison of the reached leaf\'s key with the operation\'s own key. '
                    'LEAF-1 the leaf constructor copies key and value to exactly the ranges the getters read, sized from its arguments, and the allocation is sized from the same numbers; LEAF-2 leaves are immutable after construction (const fields, const methods, no write through `data` elsewhere); LEAF-3 no cast drops const from byte / leaf pointers (positive control in the analysis unit) - so an existing entry and any value view onto it cannot change while the leaf exists; '
-                   'LOCK-6 (leaf sites only) leaves of the OLC index are freed only through QSBR (view valid until the next quiescent state). ROOT-1 empty() is "root is null" and clear() stores null into the root on every path. '
+                   'LOCK-6 (leaf sites only) leaves of the OLC index are freed only through QSBR (view valid until the next quiescent state), LOCK-6b the reclaiming deleters defer the very node they were given. ROOT-1 empty() is "root is null" and clear() stores null into the root on every path. '
                    'FIND-1 find_child of each node class returns exactly the child stored for the key byte: I4 / I16 by lane-wise three-valued evaluation of the SSE search with child count and match position enumerated and stale slots free, I48 / I256 by term comparison; SLOT-1 I48 files a new child in the first null slot of its pointer array (lane-wise evaluation of the SSE4.2 / AVX2 / scalar search, first null slot enumerated 0..47); ORD-1 the dense classes insert at the rank of the new key byte (sortedness preserved); PAIR-1 every function of the dense classes writes the key array and the child array in lock-step (same target and source slots), so slot i of one always describes slot i of the other. '
                    'DESC-1 the descent of get / insert / remove / seek compares each node prefix with the shifted working copy of the key, shifts it by the prefix length, selects the child by its first byte and shifts by one, in this order, the tracked depth moving in step; COPY-1 the grow / shrink initialisers walk the slot arrays of their source node from slot 0 to the array size; '
                    'SPLIT-1 node splits dispatch on the bytes at the split position (leaf split: k1[depth+L] / shifted_k2[L]; prefix split: prefix[len] read before the cut by len+1, key[depth+len]); CAP-1 / CAP-2 the interval obligations "longest common prefix of two distinct keys <= key_prefix_capacity" at the leaf split and "merged prefix <= capacity" at the collapse hold for 64-bit keys and FAIL for byte-string keys - two genuine defects of the pinned tree, listed in known_findings.json and printed as KNOWN-FINDING (replays triage/d1_long_prefix.cpp, triage/d1b_collapse_overflow.cpp). '
@@ -218,13 +218,13 @@ PROPERTIES['C03'] = {
 PROPERTIES['C04'] = {
     'level': 'other',
     'configs': two,
-    'rules': [olc('LOCK-1'), olc('LOCK-5'), R(olcrules.lock6),
+    'rules': [olc('LOCK-1'), olc('LOCK-5'), R(olcrules.lock6), R(olcrules.lock6b),
               R(qsbr.q_free_paths), R(qsbr.q_rotation), R(qsbr.q_barriers), R(lambda cfg: qsbr.q_orphans(cfg, parts=('7', '9'))), R(qsbr.q_tagging), R(qsbr.q_last_out), R(qsbr.q_register_epoch),
               R(lambda cfg: qsbr.q_rotation(cfg, parts=('3',))), R(qsbr.q_cas), R(lambda cfg: qsbr.q_orphans(cfg, parts=('8',))), R(qsbr.q_tail_link), R(ptr.ptr3), R(point.lock11)],
     'technique': 'static analysis: relational typestate dataflow (validate-before-dereference, obsolete-before-retire), who-may-construct rule for immediate-deleter owners; the QSBR who-may-free / ordering / control-dependence rules of C05',
     'explanation': 'Structural safety conditions of "no use of reclaimed memory": LOCK-1 (no pointer obtained from a node is followed before the read section on that node is re-validated, so a stale pointer to a retired node is never dereferenced) '
                    'and LOCK-5 (every node an OLC operation hands to reclamation was unlocked-and-obsoleted by it first, so readers still holding a section on it restart; checked at restart returns too - a node retired and then abandoned by a restart is still linked), on every path of every OLC function, both key kinds; '
-                   'LOCK-6 (in the OLC instantiation an existing node is never wrapped in an owner with the immediate deleter outside the single-threaded teardown: ever-reachable nodes are freed only through QSBR). The second half of the property - what was retired is not freed before every reader that might hold it has quiesced - rests on the QSBR safety generators, which are therefore checked here too: Q-1,2,3,4,5,7,9,10,11,12,14 (see C05); and the last clause - every unlinked node is freed exactly once - on the linearity rules of C06 (Q-3, Q-6, Q-8, Q-13). PTR-3 the span handed out by get() reproduces the data / size of the value view; LOCK-11 no definitive result after a failed lock step.',
+                   'LOCK-6 (in the OLC instantiation an existing node is never wrapped in an owner with the immediate deleter outside the single-threaded teardown: ever-reachable nodes are freed only through QSBR); LOCK-6b (the reclaiming deleters hand exactly the node they were given, with its size, to on_next_epoch_deallocate and free nothing themselves). The second half of the property - what was retired is not freed before every reader that might hold it has quiesced - rests on the QSBR safety generators, which are therefore checked here too: Q-1,2,3,4,5,7,9,10,11,12,14 (see C05); and the last clause - every unlinked node is freed exactly once - on the linearity rules of C06 (Q-3, Q-6, Q-8, Q-13). PTR-3 the span handed out by get() reproduces the data / size of the value view; LOCK-11 no definitive result after a failed lock step.',
     'decides': 'validate-before-dereference; obsolete-before-retire; deferred free only; the local generators of the two-epoch delay of QSBR',
     'does_not_decide': 'the global epoch invariant of QSBR under all interleavings (as C05); eventual reclamation as liveness',
 }
